@@ -219,7 +219,7 @@ theorem typed_frame_accepted (s : Stream) (data : Bytes) (flag : Nat)
     wire (on an encrypting stream: 8-byte length = len+1, the bytes, the NUL), after whatever was
     buffered, however the frames are cut. -/
 theorem typed_strbytes_any_length (enc : Bool) (buf s : Bytes) (hnz : ∀ b ∈ s, b ≠ 0) (hlen : s.length + 1 < 2^64) :
-    wireBytes (putStringBytes enc buf s) = buf ++ Spec.enc enc (.str s) :=
+    wireBytes (putStringBytesL enc buf s) = buf ++ Spec.enc enc (.str s) :=
   wireBytes_putStringBytes enc buf s hnz hlen
 
 /-- **typed_bytes_any_length**: `PutBytes` of any length (split across frames above the frame
